@@ -308,8 +308,9 @@ _ABS = {}
 
 def absint_panics(f, body):
     """Feasible panics of a loop-free body: set of (where, text) — or None when not analysable."""
-    if body.name in _ABS:
-        return _ABS[body.name]
+    ent = _ABS.get(id(body))
+    if ent is not None and ent[0] is body:
+        return ent[1]
     res = None
     if not body.cycles_sccs():
         try:
@@ -325,7 +326,7 @@ def absint_panics(f, body):
             res = None
         except RecursionError:
             res = None
-    _ABS[body.name] = res
+    _ABS[id(body)] = (body, res)
     return res
 
 
@@ -1173,7 +1174,7 @@ PRECOND = {
         "callers": [
             # (caller regex, argument shape regex, guard regexes, why)
             (r"ipres::Prefix::all$", r"^0$", [], "constant"),
-            (r"ipres::Prefix::from_bit_string$", r"^\(BitString::bit_len\(%1\) as u8\)$", [r"^Gt\(BitString::octet_len\(%1\), 16\) -> 0$"],
+            (r"ipres::Prefix::from_bit_string$", r"^\(BitString::bit_len\(%1\) as u8\)$", [r"^BitString::octet_len\(%1\) <= 16$"],
              "at most 16 octets, so at most 128 bits"),
             (r"ipres::AddressRange::to_v6_prefixes$", r"^\(SubWithOverflow\(128, cmp::min\(", [], "128 - x without overflow is <= 128"),
             (r"ipres::AddressRange::to_v4_prefixes$", r"^\(SubWithOverflow\(32, cmp::min\(", [], "32 - x without overflow is <= 32"),
